@@ -568,9 +568,24 @@ def run_world(size: int, fn: Callable[[int], Any], seed: int = 0, policy: str = 
     import os
     saved = {k: os.environ.get(k) for k in ('LOCAL_RANK', 'LOCAL_WORLD_SIZE')}
     os.environ['LOCAL_RANK'] = '0'; os.environ['LOCAL_WORLD_SIZE'] = '1'
+    # file I/O is a scheduling point: another rank may run between "the barrier returned" and "my file is written",
+    # and between "I look for the file" and "it is there" (a shared file system orders nothing by itself)
+    orig_save, orig_load = torch.save, torch.load
+
+    def _save(*a, **k):
+        if _WORLD is not None and hasattr(_tls, 'rank'):
+            _WORLD.yield_point()
+        return orig_save(*a, **k)
+
+    def _load(*a, **k):
+        if _WORLD is not None and hasattr(_tls, 'rank'):
+            _WORLD.yield_point()
+        return orig_load(*a, **k)
+    torch.save, torch.load = _save, _load
     try:
         return w.run(fn)
     finally:
+        torch.save, torch.load = orig_save, orig_load
         for k, v in saved.items():
             if v is None:
                 os.environ.pop(k, None)
